@@ -115,6 +115,15 @@ type c04Case struct {
 	// kind, children, contents, sizes and modes of what lies beneath) is compared as in any other
 	// case. Witness replay files never carry the flag: they are decided strictly.
 	TolerateDirMode bool `json:"tolerate_dir_mode,omitempty"`
+	// TolerateEmptiedDir is set by the generator only, and only while the known finding
+	// c04.emptied_dir_pruned_in_final_view is recorded (three cases in four): the case keeps the
+	// input shape of that finding (a whiteout or opaque marker that leaves a directory two or
+	// more levels deep without children in the final view) instead of being stripped of it. The
+	// finding explains ONE observable: in the FINAL view exactly the directories of
+	// c04EmptiedExplained may be absent (or present and empty, as the overlay says). Every other
+	// path of the final view and every earlier view are compared as in any other case. Witness
+	// replay files never carry the flag: they are decided strictly.
+	TolerateEmptiedDir bool `json:"tolerate_emptied_dir,omitempty"`
 }
 
 var c04DirForms = []string{"", "", "", "slash", "dots", "relative", "dot_relative", "symlink"}
@@ -657,24 +666,29 @@ func c04Features(cs c04Case) (finding map[string]bool, labels map[string]bool, a
 		}
 	}
 	// emptied directories: a directory of the final view without children whose subtree held
-	// something in an earlier view.
-	if n := len(views); n > 0 {
-		final := views[n-1]
-		for p, nd := range final {
-			if nd.Kind != overlay.Dir || p == "/" || final.HasDescendants(p) || overlay.Depth(p) < 2 {
-				continue
-			}
-			// some layer put a marker file directly into it: whiteout nodes are its only children
-			for _, l := range cs.Image.Layers {
-				for _, e := range l.Entries {
-					op := overlay.Interpret(e)
-					if op.Kind == overlay.OpWhiteout && path.Dir(op.Path) == p {
-						finding[clsEmptiedDir] = true
-					}
-					if op.Kind == overlay.OpOpaque && op.Path == p {
-						finding[clsEmptiedDir] = true
-					}
+	// something in an earlier view (c04EmptiedExplained). A case that carries TolerateEmptiedDir
+	// keeps the shape: the class is not reported as a finding of the case; the comparison of the
+	// final view accepts the absence of exactly those directories.
+	if em := c04EmptiedExplained(cs.Image.Layers, views); len(em) > 0 {
+		switch {
+		case !cs.TolerateEmptiedDir:
+			finding[clsEmptiedDir] = true
+		case cs.UnpackOnly:
+			// the views of such a case are not compared at all
+			labels["emptied_dir_shape_in_unpack_only_case"] = true
+		default:
+			labels["emptied_dir_tolerated_case"] = true
+			for _, p := range sortedKeys(em) {
+				labels["emptied_dir_"+em[p]] = true
+				if overlay.Depth(p) >= 3 {
+					labels["emptied_dir_depth_ge3"] = true
 				}
+			}
+			if len(views) >= 3 {
+				labels["emptied_dir_tolerated_with_layers_ge3"] = true
+			}
+			if cs.UseRequirer {
+				labels["emptied_dir_tolerated_with_requirer"] = true
 			}
 		}
 	}
@@ -1061,6 +1075,72 @@ func c04DirModeExplained(layers []tarimg.Layer, views []overlay.View) (perLayer 
 	return perLayer, shapes
 }
 
+// Reasons of c04EmptiedExplained.
+const (
+	emMarker  = "emptied_by_marker"
+	emCascade = "cascade_parent"
+)
+
+// c04EmptiedExplained computes what the known finding c04.emptied_dir_pruned_in_final_view
+// explains, from the layers (as the loader sees them) and their reference views alone: the
+// directories of the FINAL view that may be absent from it. The finding: whiteouts are kept as
+// nodes of the path tree; pruning the final view removes them, and removing the last child of a
+// directory removes the directory node as well, and so on upwards (never a child of the root).
+// Hence a directory P of the final view, two or more levels deep, is explained when
+//   - it has no children in the final view and some layer put a marker directly into it (a
+//     whiteout of P/x, or an opaque marker of P), or
+//   - (cascade) it has children in the final view and every one of them is explained.
+//
+// The value says which of the two.
+func c04EmptiedExplained(layers []tarimg.Layer, views []overlay.View) map[string]string {
+	out := map[string]string{}
+	if len(views) == 0 {
+		return out
+	}
+	final := views[len(views)-1]
+	for p, nd := range final {
+		if nd.Kind != overlay.Dir || p == "/" || final.HasDescendants(p) || overlay.Depth(p) < 2 {
+			continue
+		}
+		// some layer put a marker file directly into it: whiteout nodes are its only children
+		for _, l := range layers {
+			for _, e := range l.Entries {
+				op := overlay.Interpret(e)
+				if (op.Kind == overlay.OpWhiteout && path.Dir(op.Path) == p) || (op.Kind == overlay.OpOpaque && op.Path == p) {
+					out[p] = emMarker
+				}
+			}
+		}
+	}
+	if len(out) == 0 {
+		return out
+	}
+	// close upwards, deepest directories first
+	paths := final.Paths()
+	sort.Slice(paths, func(i, j int) bool {
+		if di, dj := overlay.Depth(paths[i]), overlay.Depth(paths[j]); di != dj {
+			return di > dj
+		}
+		return paths[i] < paths[j]
+	})
+	for _, p := range paths {
+		if nd := final[p]; nd.Kind != overlay.Dir || p == "/" || overlay.Depth(p) < 2 || out[p] != "" {
+			continue
+		}
+		kids := final.Children(p)
+		all := len(kids) > 0
+		for _, c := range kids {
+			if out[path.Join(p, c)] == "" {
+				all = false
+			}
+		}
+		if all {
+			out[p] = emCascade
+		}
+	}
+	return out
+}
+
 // ---------------------------------------------------------------------------------------
 // Comparison of one view.
 // ---------------------------------------------------------------------------------------
@@ -1073,6 +1153,10 @@ type c04Stats struct {
 	// the known finding explains saw the synthesised d--------- / the expected mode
 	dirModeSynthesised int
 	dirModeExpected    int
+	// tolerated emptied directories (TolerateEmptiedDir): how often a directory the known
+	// finding explains was absent from / present in the final view
+	emptiedAbsent  int
+	emptiedPresent int
 }
 
 // c04DirTol is the mode tolerance of one view: the directories of c04DirModeExplained.
@@ -1128,6 +1212,10 @@ type viewPair struct {
 	// tol names the directories of this view whose mode a known finding explains (cases with
 	// TolerateDirMode only; nil otherwise)
 	tol *c04DirTol
+	// emptied names the directories that may be absent from this (final) view because
+	// c04.emptied_dir_pruned_in_final_view explains it (cases with TolerateEmptiedDir only): they
+	// are in may and not in must
+	emptied map[string]string
 }
 
 func (vp viewPair) wants(p string) []want {
@@ -1316,6 +1404,20 @@ func compareView(fsys scalibrfs.FS, vp viewPair, queries []string, st *c04Stats)
 		}
 		if k := entryKind(got[p]); k != n.Kind {
 			return fmt.Errorf("a walk from the root reports %s as %s, the overlay has a %s", p, k, n.Kind)
+		}
+	}
+	// directories that may be absent (tolerated emptied directories): absent or present, but
+	// the same answer from Stat and from the walk
+	for _, p := range sortedKeys(vp.emptied) {
+		_, serr := fsys.Stat(rel(p))
+		_, walked := got[p]
+		if (serr == nil) != walked {
+			return fmt.Errorf("Stat(%q) returns error %v, but a walk from the root reaches the path: %v (a directory that %s may remove has to be absent or present, not both)", rel(p), serr, walked, clsEmptiedDir)
+		}
+		if walked {
+			st.emptiedPresent++
+		} else {
+			st.emptiedAbsent++
 		}
 	}
 	return nil
@@ -1574,6 +1676,18 @@ func propC04(cs c04Case) (ev.Outcome, error) {
 		if dirTol != nil && plan[i].Upto > 0 && len(dirTol[plan[i].Upto-1]) > 0 {
 			vp.tol = &c04DirTol{paths: dirTol[plan[i].Upto-1], st: &st}
 		}
+		if cs.TolerateEmptiedDir && i == len(want)-1 && plan[i].Upto == len(eff.Image.Layers) {
+			// the final view: the directories the known finding explains may be absent
+			if em := c04EmptiedExplained(eff.Image.Layers, overlay.Views(eff.Image.Layers)); len(em) > 0 {
+				must := overlay.NewView()
+				for p, n := range vp.must {
+					if _, ok := em[p]; !ok {
+						must[p] = n
+					}
+				}
+				vp.must, vp.exact, vp.emptied = must, false, em
+			}
+		}
 		if ld.Chains[i].Index() != i {
 			return out, fmt.Errorf("chain layer %d reports Index() = %d", i, ld.Chains[i].Index())
 		}
@@ -1592,6 +1706,12 @@ func propC04(cs c04Case) (ev.Outcome, error) {
 	}
 	if st.dirModeExpected > 0 {
 		out.Classes = append(out.Classes, "dir_mode_tolerated:expected_mode_observed")
+	}
+	if st.emptiedAbsent > 0 {
+		out.Classes = append(out.Classes, "emptied_dir_absent_observed")
+	}
+	if st.emptiedPresent > 0 {
+		out.Classes = append(out.Classes, "emptied_dir_present_observed")
 	}
 	if cs.SkipUnpack {
 		return out, nil
@@ -1946,6 +2066,13 @@ func genC04(col *ev.Collector) func(t *rapid.T) c04Case {
 		if col.IsKnown(clsImplicitDirMode) && rapid.IntRange(0, 3).Draw(t, "tolerate_dir_mode") != 0 {
 			cs.TolerateDirMode = true
 		}
+		// Likewise for c04.emptied_dir_pruned_in_final_view: three cases in four keep whiteouts
+		// (and opaque markers) that leave a nested directory without children in the final view
+		// (rm of the last file of a directory: an everyday shape) and tolerate the absence of
+		// exactly the directories the finding explains, in the final view only.
+		if col.IsKnown(clsEmptiedDir) && rapid.IntRange(0, 3).Draw(t, "tolerate_emptied_dir") != 0 {
+			cs.TolerateEmptiedDir = true
+		}
 		known := func(cs c04Case) string {
 			f, _, _ := c04Features(cs)
 			for _, k := range sortedKeys(f) {
@@ -2261,6 +2388,13 @@ func genC04(col *ev.Collector) func(t *rapid.T) c04Case {
 			eff, _ := cs.effective()
 			if _, shapes := c04DirModeExplained(eff.Image.Layers, overlay.Views(eff.Image.Layers)); !shapes[dmExplicitBelow] && !shapes[dmEntryAfter] {
 				cs.TolerateDirMode = false
+			}
+		}
+		if cs.TolerateEmptiedDir {
+			// the flag stays only on a case that has something to tolerate
+			eff, _ := cs.effective()
+			if len(c04EmptiedExplained(eff.Image.Layers, overlay.Views(eff.Image.Layers))) == 0 {
+				cs.TolerateEmptiedDir = false
 			}
 		}
 		return cs
